@@ -78,6 +78,7 @@ func emitNode(s *hx.Session, header, lid, initImg string, evs []ev) {
 	holder := "-"
 	installs := 0
 	staged := map[int]string{} // txn -> reserved inactive id
+	flipped := map[int]bool{}
 	line := func() string { return fmt.Sprintf("%s holder=%s installs=%d", cur, holder, installs) }
 	for _, e := range evs {
 		l := e.line
@@ -131,6 +132,7 @@ func emitNode(s *hx.Session, header, lid, initImg string, evs []ev) {
 			}
 			cur = img
 			installs++
+			flipped[t] = true
 			s.Op(fmt.Sprintf("flip %d", t), line())
 			s.Hit("flip")
 			s.Nontrivial()
@@ -152,6 +154,13 @@ func emitNode(s *hx.Session, header, lid, initImg string, evs []ev) {
 			switch {
 			case f[6] == "1":
 				continue // marked removed: other protocol
+			case inactive != "0" && f[5] == "t" && flipped[t]:
+				// the transaction's own priority rollback after a failed phase 2: the pre-flip image comes back
+				cur = img
+				installs--
+				flipped[t] = false
+				s.Op(fmt.Sprintf("restore %d", t), line())
+				s.Hit("restore")
 			case inactive != "0" && f[5] == "t":
 				// reservation: the image carries the version the transaction read and the fresh id
 				s.Op(fmt.Sprintf("txn %d %s %s", t, f[4], inactive), "ok")
@@ -367,13 +376,10 @@ func pairCase(ctx context.Context, s *hx.Session, p *hx.Prng, n int) error {
 	parkAt := start1 + p.Intn(26)
 	release := make(chan struct{})
 	parked := make(chan struct{}, 1)
-	var once sync.Once
 	sc1.Gate = func(idx int, name string) {
 		if idx == parkAt {
-			once.Do(func() {
-				parked <- struct{}{}
-				<-release
-			})
+			parked <- struct{}{}
+			<-release
 		}
 	}
 	var err1, err2 error
@@ -413,12 +419,7 @@ wait:
 			}
 		}
 	}
-	once.Do(func() {})
-	select {
-	case release <- struct{}{}:
-	default:
-		close(release)
-	}
+	close(release)
 	<-done1
 	<-done2
 	s.Hit("pair")
